@@ -43,7 +43,7 @@ EXPLANATION = MANIFEST["level_text"]
 TRUSTED = [
     "pyvc VC generator (ordered dict = insertion-ordered item sequence with distinct keys)",
     "the deque-heap model in this file: a deque is a reference with absolute head/tail indices; pop/popleft/append/clear/len/[]/iteration as in collections.deque; the ghost `total` changes by exactly the length change of a queue that is in the table (each unit proves that table keys are only dropped with an empty queue and only added with a fresh empty queue)",
-    "z3 5.1.0 / cvc5 1.0.3",
+    "z3 5.1.0 / cvc5 1.4.0",
     "threading.Lock gives mutual exclusion; CPython attribute loads/stores are atomic",
 ]
 ASSUMPTIONS = [
